@@ -179,7 +179,7 @@ func (s *Server) Start() error {
 	}
 	if s.WriteQueueSize == 0 {
 		s.WriteQueueSize = 256
-	} else if (s.WriteQueueSize & (s.WriteQueueSize - 1)) != 0 {
+	} else if s.WriteQueueSize < 0 || (s.WriteQueueSize&(s.WriteQueueSize-1)) != 0 {
 		return fmt.Errorf("WriteQueueSize (%d) must be a power of two", s.WriteQueueSize)
 	}
 	if s.MaxPacketSize == 0 {
